@@ -180,3 +180,8 @@ pub fn extend_to_bits(v: &mut Vec<usize>, signed: bool, bits: usize) {
     crate::compile::verif_extend_to_bits(v, &ty, bits);
     std::mem::forget(ty);
 }
+
+/// The 32 constant wires (0 / 1) encoding `n`, as used for the panic record.
+pub fn unsigned_as_usize_bits(n: u64) -> [usize; 32] {
+    crate::circuit::verif_unsigned_as_usize_bits(n)
+}
